@@ -145,3 +145,10 @@ Theorem C03_replace_tail_meta_lease_set : forall x l r r', wf x -> wf r' -> read
     (Gen.Consts.c_meta_leaseset_META_LEASESET_MIN_SIZE <= Z.of_nat (length (c ++ r')) ->
      exists l', read_meta_lease_set (c ++ r') = Ok (l', r') /\ meta_lease_set_bytes l' = meta_lease_set_bytes l).
 Proof. exact read_meta_lease_set_retail. Qed.
+Theorem C03_replace_tail_router_address : forall d a r, wf d -> read_router_address d = Ok (a, r) ->
+  exists c, d = c ++ r /\ wf r /\ (12 <= length c)%nat /\ forall t', wf t' -> read_router_address (c ++ t') = Ok (a, t').
+Proof. exact read_router_address_retail. Qed.
+Theorem C03_replace_tail_router_info : forall d i r r', wf d -> wf r' -> read_router_info d = Ok (i, r) ->
+  exists c i', d = c ++ r /\ read_router_info (c ++ r') = Ok (i', r') /\ router_info_bytes i' = router_info_bytes i.
+Proof. exact read_router_info_retail. Qed.
+Print Assumptions C03_replace_tail_router_info.
